@@ -221,7 +221,7 @@ def make_funs(rng, expr):
 
 
 def cases(rng, tier):
-    n = 1000 if tier == "quick" else 30000
+    n = 800 if tier == "quick" else 30000
     for i in range(n):
         g = Gen11(rng, ifuns=(rng.random() < 0.3))
         k = rng.random()
